@@ -348,8 +348,12 @@ def run_case(case, fault_kind, fault_k):
     for name, spec in case["params"]:
         if spec[0] == "klong":
             k(name + "::" + spec[1])
+        elif spec[0] == "alias":
+            k._context._context[0][KGSym(name)] = k._context._context[0][KGSym(spec[1])]      # the SAME object under a second name
         else:
             k[name] = make_param(spec)
+    if case.get("assigns"):
+        k("cnt::100")
     gd = k._context._context[0]
     def snapshot():
         return [[str(n), canon(v, init_objs)] for n, v in gd.items()]
@@ -372,7 +376,15 @@ def run_case(case, fault_kind, fault_k):
     k("fgood::{" + good + "}")
     # (a conditional directly inside a call argument does not parse in klongpy: go through an inner function)
     k("finner::{:[tick(" + arg + ");" + bad + ";" + good + "]}")
-    k(case["fname"] + "::{probe(finner(" + ("" if case["nilad"] else "x") + "))}")
+    a1 = "" if case["nilad"] else "x"
+    if case.get("assigns"):
+        # the differentiated function itself assigns a global after every evaluation that returns
+        k("fmid::{[r];r::finner(" + a1 + ");cnt::cnt+1;r}")
+        k(case["fname"] + "::{probe(fmid(" + a1 + "))}")
+    else:
+        k(case["fname"] + "::{probe(finner(" + a1 + "))}")
+    for d in case.get("pre", []):
+        k(d)
     init_objs = [v for n, v in gd.items()]
     init_names = [str(n) for n in gd.keys()]
     init = snapshot()
@@ -382,10 +394,14 @@ def run_case(case, fault_kind, fault_k):
         except Exception as e:
             return ["exc", type(e).__name__]
     f_before = fprobe()
+    cnt_before = gd.get(KGSym("cnt")) if case.get("assigns") else None
+    returned = None
     try:
-        k(case["expr"])
+        rv = k(case["expr"])
         cls = "ok"
         detail = ""
+        if case.get("returns"):
+            returned = [canon(rv, []), canon(k(case["returns"]), [])]
     except Boom:
         cls, detail = "raise", "Boom"
     except NonScalarLossError as e:
@@ -395,6 +411,11 @@ def run_case(case, fault_kind, fault_k):
     except Exception as e:
         cls, detail = "other", type(e).__name__ + ": " + str(e)[:80]
     final = snapshot()
+    cnt_after = gd.get(KGSym("cnt")) if case.get("assigns") else None
+    if case.get("assigns"):
+        cnt_after = canon(cnt_after, [])
+        k("cnt::100")                      # so that f() before/after is compared on the same state
+        final_wo = snapshot()
     f_after = fprobe()
     final2 = snapshot()
     script = []
@@ -405,7 +426,12 @@ def run_case(case, fault_kind, fault_k):
             script.append(["x", 1])
         else:
             script.append(["x", 2])
-    return {"class": cls, "detail": detail, "ncalls": st["n"], "init": init, "names": init_names, "snaps": st["snaps"], "args": st["args"],
+    extra = {}
+    if case.get("assigns"):
+        extra = {"cnt_after": cnt_after, "final_with_cnt_reset": final_wo}
+    if returned is not None:
+        extra["returned"] = returned
+    return {"extra": extra, "class": cls, "detail": detail, "ncalls": st["n"], "init": init, "names": init_names, "snaps": st["snaps"], "args": st["args"],
             "final": final, "final_after_probe": final2, "f_before": f_before, "f_after": f_after, "script": script}
 
 cases = json.loads(sys.stdin.read())
@@ -507,8 +533,42 @@ def build_cases(backend, tier, rng):
         cases.append(dict(common, form="gradmulti", label=label, expr="f:>[w b]", fname="f", good="(+/w*w)+(+/b*b)", probe_expr="fgood()", faults=gfaults))
         cases.append(dict(common, form="jacmulti", label=label, expr="[w b]∂f", fname="f", good="(w*w),b*b", probe_expr="fgood()", faults=jfaults))
         # the same symbol twice, and an undefined symbol in the list
-        if backend == "numpy":   # torch.autograd.grad rejects the unused first tensor: not modelled
-            cases.append(dict(common, form="gradmulti", label=label + "_dup", expr="f:>[w w]", fname="f", good="(+/w*w)+(+/b*b)", probe_expr="fgood()", faults=["raise"], syms=["w", "w"]))
+        # the same symbol twice (on torch the first tensor is unused: zero gradient since fix 4b0d1b8)
+        cases.append(dict(common, form="gradmulti", label=label + "_dup", expr="f:>[w w]", fname="f", good="(+/w*w)+(+/b*b)", probe_expr="fgood()", faults=["raise", "nonnum"], syms=["w", "w"]))
+        cases.append(dict(common, form="jacmulti", label=label + "_dup", expr="[w w]∂f", fname="f", good="(w*w),b*b", probe_expr="fgood()", faults=["raise"], syms=["w", "w"]))
+    # one array object under two names (w and b are the same ndarray / tensor)
+    for label, spec in (("alias_flt", ["klong", lit([1.0, 2.0])]), ("alias_int", ["klong", lit([1, 2])]), ("alias_npf64", ["np", ["float64", [1.5, 2.5]]])):
+        common = {"params": [["w", spec], ["b", ["alias", "w"]]], "nilad": True}
+        cases.append(dict(common, form="gradmulti", label=label, expr="f:>[w b]", fname="f", good="(+/w*w)+(+/b*b)", probe_expr="fgood()", faults=["raise", "vector"]))
+        cases.append(dict(common, form="jacmulti", label=label, expr="[w b]∂f", fname="f", good="(w*w),b*b", probe_expr="fgood()", faults=["raise"]))
+        common = {"params": [["q", spec], ["p", ["alias", "q"]]], "nilad": False}
+        cases.append(dict(common, form="gradvar", label=label, expr="f:>p", fname="f", good="+/x*x", probe_expr="fgood(p)", faults=["raise"]))
+        cases.append(dict(common, form="nablasym", label=label, expr="p∇f", fname="f", good="+/x*x", probe_expr="fgood(p)", faults=["raise", "unknown"]))
+    # the differentiated function itself assigns a global (allowed: C07_restore_with_writes)
+    for label, spec in (("intarr", ["klong", lit([1, 2, 3])]), ("fltarr", ["klong", lit([1.0, 2.0, 3.0])]), ("fltscalar", ["klong", "2.5"])):
+        common = {"params": [["p", spec]], "nilad": False, "assigns": True}
+        cases.append(dict(common, form="gradvar", label=label + "_assign", expr="f:>p", fname="f", good="+/x*x", probe_expr="fgood(p)", faults=["raise", "vector"]))
+        cases.append(dict(common, form="nablasym", label=label + "_assign", expr="p∇f", fname="f", good="+/x*x", probe_expr="fgood(p)", faults=["raise", "nonnum"]))
+        cases.append(dict(common, form="jacvar", label=label + "_assign", expr="p∂f", fname="f", good="x*x", probe_expr="fgood(p)", faults=["raise"]))
+    common = {"params": [["w", ["klong", lit([1.0, 2.0])]], ["b", ["klong", "3.5"]]], "nilad": True, "assigns": True}
+    cases.append(dict(common, form="gradmulti", label="flt_fs_assign", expr="f:>[w b]", fname="f", good="(+/w*w)+(+/b*b)", probe_expr="fgood()", faults=["raise", "unknown"]))
+    cases.append(dict(common, form="jacmulti", label="flt_fs_assign", expr="[w b]∂f", fname="f", good="(w*w),b*b", probe_expr="fgood()", faults=["raise"]))
+    # nested scopes (property oracle only; the model has one scope): the gradient expression is evaluated inside a Klong function whose
+    # locals / arguments are named like globals; observed: all globals before/after, and on success the locals handed back
+    g1 = {"params": [["p", ["klong", lit([7.0, 8.0])]]], "nilad": False, "form": "scoped", "fname": "f", "probe_expr": "fgood(p)"}
+    for nm, body, good, ret, call in (
+            ("local:>", "{[p];p::[1.0 2.0 3.0];f:>p;p}", "+/x*x", "[1.0 2.0 3.0]", "h()"),
+            ("local-nabla", "{[p];p::[1.0 2.0 3.0];p∇f;p}", "+/x*x", "[1.0 2.0 3.0]", "h()"),
+            ("local-jac", "{[p];p::[1.0 2.0 3.0];p∂f;p}", "x*x", "[1.0 2.0 3.0]", "h()"),
+            ("arg:>", "{f:>x;x}", "+/x*x", "p", "h(p)"),
+            ("arg-nabla", "{x∇f;x}", "+/x*x", "p", "h(p)"),
+            ("arg-jac", "{x∂f;x}", "x*x", "p", "h(p)"),
+            ("arg-y-nabla", "{y∇f;y}", "+/x*x", "p", "h(0;p)")):
+        cases.append(dict(g1, label=nm, pre=["h::" + body], expr=call, returns=ret, good=good, faults=["raise", "vector"] if "jac" not in nm else ["raise"]))
+    g2 = {"params": [["w", ["klong", lit([5.0])]], ["b", ["klong", "9"]]], "nilad": True, "form": "scoped", "fname": "f", "probe_expr": "fgood()"}
+    for nm, body, good in (("locals-multi:>", "{[w b];w::[1.0 2.0];b::3.0;f:>[w b];w,b}", "(+/w*w)+(+/b*b)"),
+                           ("locals-multi-jac", "{[w b];w::[1.0 2.0];b::3.0;[w b]∂f;w,b}", "(w*w),b*b")):
+        cases.append(dict(g2, label=nm, pre=["h::" + body], expr="h()", returns="[1.0 2.0],3.0", good=good, faults=["raise"]))
     common = {"params": [["w", ["klong", lit([1.0, 2.0])]], ["b", ["klong", "3"]]], "nilad": True}
     cases.append(dict(common, form="gradmulti", label="undefined", expr="f:>[w nosuch]", fname="f", good="(+/w*w)+(+/b*b)", probe_expr="fgood()", faults=[], syms=["w", "nosuch"]))
     cases.append(dict(common, form="jacmulti", label="undefined", expr="[w nosuch]∂f", fname="f", good="(w*w),b*b", probe_expr="fgood()", faults=[], syms=["w", "nosuch"]))
@@ -535,7 +595,7 @@ class Unsupported(Exception):
 
 def store_of_snapshot(snap):
     """snapshot (list of [name, canon]) -> (model store as python sx structure, name->number map).
-    Distinct objects get distinct buffers; the harness only injects distinct objects."""
+    Distinct objects get distinct buffers; one object under two names gets one buffer."""
     vars_, heap = [], []
     nums = {}
     for i, (name, c) in enumerate(snap):
@@ -545,6 +605,8 @@ def store_of_snapshot(snap):
             v = ["i", c[1]]
         elif tag == "float":
             v = ["f", [0, c[1], []]]
+        elif tag in ("nd", "tt") and 0 <= c[-1] < i:
+            v = list(vars_[c[-1]][1])          # the same object under a second name: same buffer
         elif tag in ("nd", "tt"):
             if c[1] not in DT:
                 raise Unsupported("dtype " + c[1])
@@ -641,11 +703,25 @@ def compare_case(chk, backend, case, fault, r, m):
     """returns (property_failure or None, correspondence_failure or None, in_alias_class)"""
     init = r["init"]
     prop = None
+    final_for_oracle = r["final"]
+    if case.get("assigns"):
+        # the function's own assignments to cnt are allowed: one per evaluation that returned; everything else as before
+        expect_cnt = 100 + sum(1 for o in r["script"] if o[0] != "x")
+        if r["extra"]["cnt_after"] != ["int", expect_cnt]:
+            prop = {"what": "the global assigned by the differentiated function is not what the function assigned",
+                    "expected": ["int", expect_cnt], "after": r["extra"]["cnt_after"]}
+        final_for_oracle = r["extra"]["final_with_cnt_reset"]
+    if prop is None and case.get("returns") and r["class"] == "ok":
+        got, want = r["extra"]["returned"]
+        if got != want:
+            prop = {"what": "local variables of the enclosing function differ after the gradient expression", "returned": got, "expected": want}
     # --- property oracle: nothing visible changed; f() gives what it gave
-    if r["final"] != init:
-        changed = [a[0] for a, b in zip(init, r["final"]) if a != b] + [b[0] for b in r["final"][len(init):]]
+    if prop is not None:
+        pass
+    elif final_for_oracle != init:
+        changed = [a[0] for a, b in zip(init, final_for_oracle) if a != b] + [b[0] for b in final_for_oracle[len(init):]]
         prop = {"what": "program state differs after the gradient expression", "changed": changed,
-                "before": [e for e in init if e[0] in changed], "after": [e for e in r["final"] if e[0] in changed]}
+                "before": [e for e in init if e[0] in changed], "after": [e for e in final_for_oracle if e[0] in changed]}
     elif r["f_before"] != r["f_after"]:
         prop = {"what": "the function evaluated afterwards returns something else", "before": r["f_before"], "after": r["f_after"]}
     corr = None
@@ -731,7 +807,17 @@ def run(tier, replay=None):
                         freq = form_request(case, nums)
                     case["_mstore"] = mstore
                     item["_mstore"] = mstore
-                    reqs.append(sx(["run", 1 if backend == "torch" else 0, freq, mstore, r["script"] if r["script"] else [["s"]]]))
+                    writes = []
+                    if case.get("assigns"):
+                        # the function assigned cnt after every evaluation that returned (observed outcome script)
+                        c = 100
+                        for o in r["script"]:
+                            if o[0] == "x":
+                                writes.append([])
+                            else:
+                                c += 1
+                                writes.append([[nums["cnt"], ["i", c]]])
+                    reqs.append(sx(["run", 1 if backend == "torch" else 0, freq, mstore, r["script"] if r["script"] else [["s"]], writes]))
                     index.append((ci, ri))
                 except Unsupported:
                     chk.count("unsupported_by_model")
@@ -744,6 +830,18 @@ def run(tier, replay=None):
                 chk.count("evaluations")
                 chk.count("%s_%s" % (backend, case["form"]))
                 chk.count("fault_" + fault[0])
+                if case.get("assigns"):
+                    chk.count("cases_function_assigns_global")
+                    if r["ncalls"] and r["extra"]["cnt_after"] != ["int", 100]:
+                        chk.count("cases_function_assigned_at_least_once")
+                if case["form"] == "scoped":
+                    chk.count("cases_nested_scope")
+                    if "returned" in r["extra"]:
+                        chk.count("cases_nested_scope_locals_observed")
+                if any(sp[0] == "alias" for _, sp in case["params"]):
+                    chk.count("cases_aliased_parameters")
+                if "_dup" in case["label"]:
+                    chk.count("cases_duplicate_symbol")
                 chk.count("result_" + r["class"])
                 key = (backend, case["form"], case["label"], fault[0], fault[1])
                 if key not in seen and r["ncalls"] > 0:
